@@ -20,34 +20,42 @@ def run_linedrv(mode, lines, timeout=900):
     chunks = [lines[i::NCPU] for i in range(NCPU)]
 
     def one(chunk):
-        if not chunk:
-            return [], None
-        inp = "".join(json.dumps({"id": i, "line": ln}) + "\n" for i, ln in chunk)
-        d = tempfile.mkdtemp(prefix="ld-", dir=scratch())
-        env = dict(BASE_ENV, HOME=d, TMPDIR=d, PATH="/usr/bin:/bin")
-        try:
-            p = subprocess.run([bin_path("linedrv"), mode], input=inp.encode(), stdout=subprocess.PIPE, stderr=subprocess.PIPE, env=env, cwd=d, timeout=timeout)
-            out, rc, to = p.stdout.decode("utf-8", "replace"), p.returncode, False
-        except subprocess.TimeoutExpired as ex:
-            out, rc, to = (ex.stdout or b"").decode("utf-8", "replace"), None, True
-        shutil.rmtree(d, ignore_errors=True)
-        recs = []
-        for ln in out.splitlines():
+        """the harness answers line by line: when the process dies or hangs, the first unanswered line is the culprit;
+        it is reported and the rest of the chunk is processed by a fresh process"""
+        recs, probs = [], []
+        rest = list(chunk)
+        while rest:
+            inp = "".join(json.dumps({"id": i, "line": ln}) + "\n" for i, ln in rest)
+            d = tempfile.mkdtemp(prefix="ld-", dir=scratch())
+            env = dict(BASE_ENV, HOME=d, TMPDIR=d, PATH="/usr/bin:/bin")
             try:
-                recs.append(json.loads(ln))
-            except ValueError:
-                pass
-        problem = None
-        if to or rc != 0:
-            answered = set(r["id"] for r in recs)
-            missing = [c for c in chunk if c[0] not in answered]
-            problem = {"timeout": to, "rc": rc, "first_unanswered_line": missing[0][1] if missing else None}
-        return recs, problem
+                p = subprocess.run([bin_path("linedrv"), mode], input=inp.encode(), stdout=subprocess.PIPE, stderr=subprocess.PIPE, env=env, cwd=d, timeout=timeout)
+                out, rc, to = p.stdout.decode("utf-8", "replace"), p.returncode, False
+            except subprocess.TimeoutExpired as ex:
+                out, rc, to = (ex.stdout or b"").decode("utf-8", "replace"), None, True
+            shutil.rmtree(d, ignore_errors=True)
+            got = []
+            for ln in out.splitlines():
+                try:
+                    got.append(json.loads(ln))
+                except ValueError:
+                    pass
+            recs += got
+            if not to and rc == 0:
+                break
+            answered = set(r["id"] for r in got)
+            missing = [c for c in rest if c[0] not in answered]
+            if not missing:
+                break
+            probs.append({"timeout": to, "rc": rc, "first_unanswered_line": missing[0][1]})
+            rest = missing[1:]
+            if len(probs) > 20:
+                break
+        return recs, probs
     allrecs, problems = [], []
-    for recs, prob in pmap(one, chunks):
+    for recs, probs in pmap(one, chunks):
         allrecs += recs
-        if prob:
-            problems.append(prob)
+        problems += probs
     return allrecs, problems
 
 
